@@ -84,4 +84,38 @@ Definition step_ok (lim : Z) (s : rstep) : bool :=
 
 Definition oracle (c : case) : bool := forallb (step_ok (c_lim c)) (c_steps c).
 
+(* the same, as a proposition *)
+Definition StreamProp (lim : Z) (off ep : N) (reject : bool) (fl : list N) (full : out) (res : sres) : Prop :=
+  exists items top epc, full = OHist items top epc /\
+    match res with
+    | ROk true pubs _ _ =>
+        missing items off top = false /\ (ep = 0 \/ ep = epc) /\ truncated lim items off = false /\
+        pubs = expected_pubs fl items off
+    | ROk false pubs _ _ => pubs = []
+    | RErr code => reject = true /\ code = ErrUnrecoverablePosition
+    end.
+
+Lemma stream_ok_sound : forall lim off ep reject fl full res,
+  stream_ok lim off ep reject fl full res = true <-> StreamProp lim off ep reject fl full res.
+Proof.
+  intros. unfold stream_ok, StreamProp.
+  destruct full as [| items top epc | |]; try (split; [discriminate|intros (i & t & e & X & _); discriminate]).
+  split.
+  - intros H. exists items, top, epc. split; auto.
+    destruct res as [code|[|] pubs o e].
+    + apply andb_true_iff in H. destruct H. split; [assumption|]. lia.
+    + apply andb_true_iff in H. destruct H as [H1 H2].
+      apply (list_eqb_eq item_eqb item_eqb_eq) in H2.
+      rewrite negb_true_iff, !orb_false_iff in H1. destruct H1 as [[A B] C].
+      repeat split; auto. lia.
+    + destruct pubs; [reflexivity|discriminate].
+  - intros (i & t & e & X & H). inversion X; subst i t e.
+    destruct res as [code|[|] pubs o e].
+    + destruct H as [-> ->]. reflexivity.
+    + destruct H as (A & B & C & D). rewrite A, C. subst pubs.
+      replace (negb (ep =? 0) && negb (ep =? epc)) with false by lia.
+      cbn [orb negb andb]. apply (list_eqb_eq item_eqb item_eqb_eq). reflexivity.
+    + subst pubs. reflexivity.
+Qed.
+
 Definition run (cs : list case) := failing corr oracle cs.
